@@ -20,12 +20,13 @@ def b01? (args : List (String × String)) (k : String) : Option Bool :=
   | some "0" => some false
   | _ => none
 
-/-- `verify POS0= LS= LE= LP=<pg:tok,…> HS= F=<salt:pg:tok,…> STE= FRESH=` -/
+/-- `verify POS0= LS= LE= LP=<pg:tok,…> HS= F=<salt:pg:tok,…> STE= FRESH= [UNRES=]` (UNRES absent = 0) -/
 def handleVerify (args : List (String × String)) : String :=
   match b01? args "POS0", natArg? args "LS", natArg? args "LE", (arg? args "LP").bind (fun s => (splitList s ',').mapM parsePair?),
         natArg? args "HS", (arg? args "F").bind (fun s => (splitList s ',').mapM parsePFrame?), b01? args "STE", b01? args "FRESH" with
   | some p0, some ls, some le, some lp, some hs, some fr, some ste, some fresh =>
-    let o := verify ⟨p0, ⟨ls, le, lp⟩, hs, fr, ste, fresh⟩
+    let unres := (b01? args "UNRES").getD false
+    let o := verify ⟨p0, ⟨ls, le, lp⟩, hs, fr, ste, fresh, unres⟩
     let b := fun (x : Bool) => if x then "1" else "0"
     let base := s!"snap={b o.snapshot} idx={o.idx} clear={b o.clearEnd}"
     if o.snapshot then base else base ++ s!" hdr={b o.useHdrSalt}"
